@@ -76,8 +76,9 @@ def compare(Ls, Lt, where, prev_sizes):
 
 def job(j):
     levels, k, limit, seed = j[:4]
-    limit2 = j[4] if len(j) > 4 else limit
-    cfg_s = Config(levels=levels, ndisks=2, splits={l: k for l in range(levels)}, parity_limit=limit)
+    limit2 = j[4] if len(j) > 4 and j[4] else limit
+    only = j[5] if len(j) > 5 else None        # asymmetric configuration: only this level is split, the others are single files
+    cfg_s = Config(levels=levels, ndisks=2, splits={l: (k if only is None or l == only else 1) for l in range(levels)}, parity_limit=limit)
     cfg_t = Config(levels=levels, ndisks=2)
     v = []
     steps = 0
@@ -88,7 +89,8 @@ def job(j):
             if si == 2 and limit2 != limit:
                 # more room appears on the parity disks: from now on a larger per-file limit applies
                 Ls.cfg = Ls.cfg.clone(parity_limit=limit2)
-            where = "limit=%d->%d k=%d levels=%d step %d %s" % (limit, limit2, k, levels, si, step if isinstance(step, str) else "files+sync")
+            where = "limit=%d->%d k=%d levels=%d%s step %d %s" % (limit, limit2, k, levels, "" if only is None else " (only level %d split)" % only,
+                                                                 si, step if isinstance(step, str) else "files+sync")
             if isinstance(step, list):
                 for op in step:
                     X.apply_op(Ls, op)
@@ -97,9 +99,45 @@ def job(j):
             elif step == "sync -F":
                 rs, rt = Ls.run("sync", "-F"), Lt.run("sync", "-F")
             elif step == "lose-split":
-                # lose one split file of level 0 (the last non-empty one), fix must rebuild it
+                # every non-empty split file of every level lost in turn (alone, and together with a data disk when a second
+                # level exists): fix must rebuild it in place - same size, same bytes - as dictated by the recorded split sizes
                 c = Ls.content()
-                sz = split_sizes(c)[0]
+                S0 = Ls.save()
+                want0 = X.data_tree(Ls)
+                paths0 = {l: Ls.parity_paths(l) for l in range(levels)}
+                bytes0 = {l: [labmod._slurp(p_) if os.path.exists(p_) else b"" for p_ in paths0[l]] for l in range(levels)}
+                rec = split_sizes(c)
+                for l in range(levels):
+                    nfiles = len(paths0[l])
+                    recl = rec[l] if rec[l] is not None else [len(b_) for b_ in bytes0[l]]
+                    for idx in range(nfiles):
+                        if idx >= len(recl) or not recl[idx] or nfiles < 2:
+                            continue
+                        for with_disk in ((False, True) if levels >= 2 else (False,)):
+                            Ls.restore(S0)
+                            os.unlink(paths0[l][idx])
+                            if with_disk:
+                                F.lose_disk(Ls, "d1")
+                            rf = Ls.run("fix")
+                            w3 = where + " | split %d of level %d lost%s" % (idx, l, " with disk d1" if with_disk else "")
+                            steps += 1
+                            if rf.rc != 0:
+                                v.append(dict(kind="fix-fails-after-split-lost", where=w3, rc=rf.rc, out=rf.text()[-300:]))
+                                continue
+                            if X.tree_equal(Ls, want0):
+                                v.append(dict(kind="data-not-restored-after-split-lost", where=w3))
+                            for l2 in range(levels):
+                                for i2, p_ in enumerate(paths0[l2]):
+                                    now = labmod._slurp(p_) if os.path.exists(p_) else b""
+                                    r2 = rec[l2][i2] if rec[l2] is not None and i2 < len(rec[l2]) else len(bytes0[l2][i2])
+                                    if now[:r2] != bytes0[l2][i2][:r2]:
+                                        v.append(dict(kind="split-not-rebuilt-in-place", where=w3, level=l2, split=i2,
+                                                      size_now=len(now), recorded=r2))
+                            chk = Ls.run("check")
+                            if chk.rc != 0:
+                                v.append(dict(kind="check-fails-after-split-rebuilt", where=w3, out=chk.text()[-300:]))
+                Ls.restore(S0)
+                sz = split_sizes(c)[0] or [len(b_) for b_ in bytes0[0]]
                 idx = max([i for i, s in enumerate(sz) if s] or [0])
                 want = X.data_tree(Ls)
                 os.unlink(Ls.parity_paths(0)[idx])
@@ -121,6 +159,8 @@ def job(j):
                 c = Ls.content()
                 newsplits = {}
                 for l, sz in split_sizes(c).items():
+                    if sz is None:
+                        sz = [os.path.getsize(p_) if os.path.exists(p_) else 0 for p_ in Ls.parity_paths(l)]
                     used = max([i + 1 for i, s in enumerate(sz) if s] or [1])
                     newsplits[l] = used
                 Ls.cfg = Ls.cfg.clone(splits=newsplits)
@@ -147,6 +187,27 @@ def job(j):
     return dict(viols=v, steps=steps, outcome=tuple(outcome))
 
 
+def plimit(size, split, level):
+    """the tool's pseudo random per-file limit for --test-parity-limit (cmdline/parity.c PARITY_LIMIT)"""
+    return size + (123562341 + split * 634542351 + level * 983491341) % size
+
+
+def asym_limits(levels, only, n, bs=1024, peak=8, at_loss=7):
+    """limits for which, with only level `only` split, the single files of the other levels hold the whole history (peak
+    blocks) while the first split of level `only` is full before the split-loss step (so a second split is in use there);
+    one limit per distinct first-split capacity, n at most per capacity"""
+    out, per = [], {}
+    for lim in range(bs, 16 * bs):
+        cap = [plimit(lim, 0, l) // bs for l in range(levels)]
+        if any(cap[l] < peak for l in range(levels) if l != only):
+            continue
+        c0, c1 = cap[only], plimit(lim, 1, only) // bs
+        if 2 <= c0 < at_loss and c0 + c1 >= peak and per.get(c0, 0) < n:
+            per[c0] = per.get(c0, 0) + 1
+            out.append(lim)
+    return out
+
+
 def run(ctx):
     tier = ctx.tier
     ks = [2, 3] if tier == "quick" else [2, 3, 4, 8]
@@ -159,6 +220,9 @@ def run(ctx):
     jobs = [(l, k, lim, ctx.seed) for l in levels for k in ks for lim in limits]
     # the limit grows after the second step (space freed on a parity disk): x4 and +1536
     jobs += [(l, k, lim, ctx.seed, lim2) for l in levels for k in ks for lim in limits[:13] for lim2 in (lim * 4, lim + 1536)]
+    # asymmetric configurations: only one of the levels is split
+    jobs += [(l, k, lim, ctx.seed, 0, only) for l in levels if l >= 2 for k in ks[:2] for only in range(l)
+             for lim in asym_limits(l, only, 1 if tier == "quick" else 4)]
     evals = 0
     done = 0
     for j, r in par.pmap(job, jobs, deadline=ctx.deadline):
@@ -168,7 +232,7 @@ def run(ctx):
         ctx.outcome((r["steps"], r["outcome"][-1] if r["outcome"] else None))
         for v in r["viols"]:
             ctx.violation("C17/%s" % v["kind"], "%s: %s" % (v["kind"], v["where"]),
-                          dict(levels=j[0], k=j[1], limit=j[2], limit2=j[4] if len(j) > 4 else j[2], violation=v))
+                          dict(levels=j[0], k=j[1], limit=j[2], limit2=j[4] if len(j) > 4 and j[4] else j[2], only=j[5] if len(j) > 5 else None, violation=v))
         if done in (3, 40):
             ctx.sample(dict(levels=j[0], splits=j[1], parity_limit=j[2], steps_completed=r["steps"], exits=r["outcome"]))
     if done < len(jobs):
@@ -182,7 +246,7 @@ def run(ctx):
 
 
 def replay(r):
-    out = job((r["levels"], r["k"], r["limit"], 0, r.get("limit2", r["limit"])))
+    out = job((r["levels"], r["k"], r["limit"], 0, r.get("limit2", r["limit"]), r.get("only")))
     for v in out["viols"]:
         print("  ", v)
     return not out["viols"]
